@@ -300,6 +300,13 @@ func (ex *Exec) checkFrame(fr *Frame, st *State, ct *Contract, ord int, pos toke
 			allowedIn[comp] = append(allowedIn[comp], set.S)
 			continue
 		}
+		if mt, ok := ex.tryMapTarget(pre, m); ok {
+			mc := ex.mapCompsOf(mt.T)
+			for _, c := range []string{mc.has, mc.val, mc.ln} {
+				allowedAt[c] = append(allowedAt[c], mt.S)
+			}
+			continue
+		}
 		sel, ok := m.Expr.(ESel)
 		if !ok {
 			sfail("modifies: unsupported target %s", m.Text)
